@@ -1,5 +1,16 @@
-from props.common import run_bounded
+from props.common import run_bounded, verify_keys, add_obs
+from pv import obs_effects as E
+from pv import obs_classes as C
+
+KEYS = ['parso.normalizer.Issue.__init__', 'parso.normalizer.Issue.__eq__', 'parso.normalizer.Normalizer.add_issue',
+        'parso.python.prefix.PrefixPart.end_pos', 'parso.python.prefix.PrefixPart.create_spacing_part']
 
 
 def run(report):
+    add_obs(report, lambda: E.tree_purity_obligations('C20', ['parso.grammar.Grammar._get_normalizer_issues']))
+    add_obs(report, C.add_issue_callsite_obligations, 'parso.python.pep8', 'C20')
+    verify_keys(report, KEYS)
+    report.assume("nullability obligations of the PEP 8 visitor (the bracket/suite stack discipline of _indentation_tos) "
+                  "are not discharged deductively; totality rests on the bounded stand-in, where the crash sites of the "
+                  "unchanged tree are listed as known findings")
     run_bounded(report, ['pep8', 'blk'])
